@@ -251,7 +251,7 @@ def _sd_equal(a, b):
 
 
 def plan(tier, seed):
-    n = tier_value(tier, 800, 12000)
+    n = tier_value(tier, 800, 36000)
     shards = tier_value(tier, 8, 14)
     per = n // shards
     return [dict(first=i * per, count=per, budget_s=tier_value(tier, 50, 480)) for i in range(shards)]
